@@ -178,19 +178,24 @@ Record f0_facts : Prop := {
   f0_range : forall f, In f c -> f < n;
   f0_exclude : fl_exclude fb = flat_map (fun k => match k with FExclude f l => [(f, l)] | _ => [] end) (fl_constraints fb);
   f0_excluded_derived : fl_excluded_derived fb = [];
-  f0_act : fl_act fb = seq 0 n;
-  f0_basic : forall fd, In fd (fl_design fb) -> ff_window fd = None /\ ff_complex fd = false;
-  f0_constraints : forall k, In k (fl_constraints fb) -> constraint_f1 fb k = true;
-  f0_nonempty : forall f, f < n -> 0 < length (f0_L f);
+  f0_cact : forall ci f, In ci (fl_crossings fb) -> In f ci -> In f (fl_act fb);
+  f0_act : fl_act fb = filter (isact fb) (seq 0 n);
+  f0_basic : forall f fd, In f (fl_act fb) -> factor_at fb f = Some fd -> ff_window fd = None /\ ff_complex fd = false;
+  f0_implied : forall f fd, ~ In f (fl_act fb) -> factor_at fb f = Some fd -> implied_fd fb f fd = true;
+  f0_constraints : forall k, In k (fl_constraints fb) -> constraint_f2 fb k = true;
+  f0_nonempty : forall f, In f (fl_act fb) -> 0 < length (f0_L f);
   f0_trials : 0 < fl_trials fb \/ (no_rejecting_constraints fb = true /\ length (fl_crossings fb) = 1)
 }.
+
+Lemma isact_In f : isact fb f = true <-> In f (fl_act fb).
+Proof. unfold isact. apply memb_In. Qed.
 
 Lemma f0_unpack : f0_facts.
 Proof.
   pose proof HF as H0. unfold frag2 in H0.
   apply andb_prop in H0. destruct H0 as [H0 HTpos].
   apply andb_prop in H0. destruct H0 as [H0 Hne].
-  apply andb_prop in H0. destruct H0 as [H0 Hbasic].
+  apply andb_prop in H0. destruct H0 as [H0 Hfac].
   apply andb_prop in H0. destruct H0 as [H0 Hact].
   apply andb_prop in H0. destruct H0 as [H0 Hexcl].
   apply andb_prop in H0. destruct H0 as [Hpc Hcons].
@@ -209,40 +214,63 @@ Proof.
   apply Nat.eqb_eq in Hszlen. apply Nat.eqb_eq in Halpre.
   unfold exclude_consistent in Hexcl. apply andb_prop in Hexcl. destruct Hexcl as [Hex1 Hex2].
   destruct (fl_excluded_derived fb) eqn:Eed; try discriminate.
-  assert (Hplain' : forall ci, In ci (fl_crossings fb) -> NoDup ci /\ forall f, In f ci -> f < n).
+  unfold act_sorted in Hact. apply nat_list_eqb_eq in Hact.
+  assert (Hactlt : forall f, In f (fl_act fb) -> f < n).
+  { intros f Hf. rewrite Hact in Hf. apply filter_In in Hf. destruct Hf as [Hf _]. apply in_seq in Hf. lia. }
+  assert (Hplain' : forall ci, In ci (fl_crossings fb) -> NoDup ci /\ forall f, In f ci -> In f (fl_act fb)).
   { intros ci Hci. rewrite forallb_forall in Hplain. specialize (Hplain ci Hci). unfold crossing_plain in Hplain.
     apply andb_prop in Hplain. destruct Hplain as [H1 H2]. split; [apply nodupb_NoDup; exact H1|].
-    intros f Hf. rewrite forallb_forall in H2. apply Nat.ltb_lt. apply H2. exact Hf. }
+    intros f Hf. rewrite forallb_forall in H2. apply isact_In. apply H2. exact Hf. }
   assert (Hsz' : forall ci si, In (ci, si) (combine (fl_crossings fb) (fl_sizes fb)) ->
                si = list_sum (map (fun ls => combo_weight fb (combine ci ls)) (allowed_combos fb ci)) /\ 0 < si).
   { intros ci si Hin. rewrite forallb_forall in Hszok. specialize (Hszok _ Hin). unfold crossing_size_ok in Hszok.
     cbn [fst snd] in Hszok. apply andb_prop in Hszok. destruct Hszok as [H1 H2]. apply Nat.eqb_eq in H1. apply Nat.ltb_lt in H2. auto. }
   assert (Hwp : forall x, In x (fl_weights fb) -> 0 < x).
   { intros x Hx. rewrite forallb_forall in Hwpos. apply Nat.ltb_lt. apply Hwpos. exact Hx. }
+  assert (Hfd : forall f fd, factor_at fb f = Some fd ->
+            if isact fb f then basic_fd fd = true else implied_fd fb f fd = true).
+  { intros f fd Hf. unfold factors_ok in Hfac. rewrite forallb_forall in Hfac. unfold factor_at in Hf.
+    assert (Hlt : f < n) by (apply nth_error_Some; congruence).
+    specialize (Hfac (f, fd)). cbn [fst snd] in Hfac.
+    assert (Hin : In (f, fd) (combine (seq 0 n) (fl_design fb))).
+    { apply nth_error_In with (n := f). rewrite nth_error_nth' with (d := (0, fd)) by (rewrite combine_length, seq_length; lia).
+      rewrite combine_nth by (rewrite seq_length; reflexivity). rewrite seq_nth by exact Hlt.
+      rewrite (nth_error_nth _ _ fd Hf). reflexivity. }
+    specialize (Hfac Hin). destruct (isact fb f); exact Hfac. }
   unfold f0_s, f0_cw, f0_q, f0_cprod, the_crossing, the_weight.
   destruct (fl_crossings fb) as [|c0 ocs] eqn:Ec; [cbn in Hk; lia|].
   destruct (fl_weights fb) as [|w0 ows] eqn:Ew; [cbn in Hwlen; lia|].
   destruct (fl_sizes fb) as [|s0 oss] eqn:Ez; [cbn in Hszlen; lia|].
   destruct (Hsz' c0 s0 (or_introl eq_refl)) as [Es0 Hs0]. cbn [hd tl].
   constructor; unfold f0_s, f0_cw, f0_q, f0_cprod, the_crossing, the_weight; rewrite ?Ec, ?Ew, ?Ez; cbn [hd tl]; try reflexivity; try assumption.
+  - intros ci Hci. destruct (Hplain' ci Hci) as [H1 H2]. split; [exact H1|]. intros f Hf. apply Hactlt. apply H2. exact Hf.
   - apply (forallb_eqb_all 1). exact Hsu1.
   - apply Hwp. left. reflexivity.
   - apply (forallb_eqb_all 0). exact Hpre0.
   - rewrite Es0. reflexivity.
   - rewrite <- Es0. exact Hs0.
   - apply (Hplain' c0). left. reflexivity.
-  - apply (Hplain' c0). left. reflexivity.
+  - intros f Hf. apply Hactlt. apply (Hplain' c0); [left; reflexivity | exact Hf].
   - apply pairs_eqb_eq. exact Hex1.
-  - apply nat_list_eqb_eq. exact Hact.
-  - intros fd Hfd. unfold all_basic in Hbasic. rewrite forallb_forall in Hbasic.
-    specialize (Hbasic fd Hfd). destruct (ff_window fd); [discriminate|].
-    apply negb_true_iff in Hbasic. auto.
+  - intros ci f Hci Hf. apply (Hplain' ci Hci). exact Hf.
+  - intros f fd Hf Hfa. specialize (Hfd f fd Hfa). rewrite (proj2 (isact_In f) Hf) in Hfd. unfold basic_fd in Hfd.
+    destruct (ff_window fd); [discriminate|]. apply negb_true_iff in Hfd. auto.
+  - intros f fd Hf Hfa. specialize (Hfd f fd Hfa). destruct (isact fb f) eqn:E; [apply isact_In in E; contradiction | exact Hfd].
   - intros k Hk0. rewrite forallb_forall in Hcons. apply Hcons. exact Hk0.
-  - intros f Hf. unfold free_levels_nonempty in Hne. rewrite forallb_forall in Hne.
-    apply Nat.ltb_lt. apply Hne. apply in_seq. lia.
+  - intros f Hf. unfold act_levels_nonempty in Hne. rewrite forallb_forall in Hne.
+    apply Nat.ltb_lt. apply Hne. exact Hf.
   - apply orb_prop in HTpos. destruct HTpos as [H | H]; [left; apply Nat.ltb_lt; exact H|].
     right. apply andb_prop in H. destruct H as [H1 H2]. apply Nat.eqb_eq in H2. split; assumption.
 Qed.
+
+Lemma act_lt f : In f (fl_act fb) -> f < n.
+Proof. intros Hf. rewrite (f0_act f0_unpack) in Hf. apply filter_In in Hf. destruct Hf as [Hf _]. apply in_seq in Hf. lia. Qed.
+
+Lemma act_nodup : NoDup (fl_act fb).
+Proof. rewrite (f0_act f0_unpack). apply NoDup_filter. apply seq_NoDup. Qed.
+
+Lemma f0_cact_main f : In f c -> In f (fl_act fb).
+Proof. intros Hf. apply (f0_cact f0_unpack c f); [rewrite (f0_crossings f0_unpack); left; reflexivity | exact Hf]. Qed.
 
 Lemma f0_q_pos : 0 < f0_q.
 Proof.
@@ -253,22 +281,22 @@ Qed.
 Lemma f0_C_pos : 0 < f0_C.
 Proof. unfold f0_C. pose proof (f0_spos f0_unpack). pose proof (f0_wpos f0_unpack). nia. Qed.
 
-Lemma f0_window_none f : window_of fb f = None.
+Lemma f0_window_none f : In f (fl_act fb) -> window_of fb f = None.
 Proof.
-  unfold window_of, factor_at. destruct (nth_error (fl_design fb) f) as [fd|] eqn:E; [|reflexivity].
-  apply nth_error_In in E. apply (f0_basic f0_unpack) in E. apply E.
+  intros Hf. unfold window_of. destruct (factor_at fb f) as [fd|] eqn:E; [|reflexivity].
+  apply (f0_basic f0_unpack f fd Hf E).
 Qed.
 
-Lemma f0_not_derived f : is_derived fb f = false.
+Lemma f0_not_derived f : In f (fl_act fb) -> is_derived fb f = false.
 Proof.
-  unfold is_derived, factor_at. destruct (nth_error (fl_design fb) f) as [fd|] eqn:E; [|reflexivity].
-  apply nth_error_In in E. apply (f0_basic f0_unpack) in E. destruct E as [E _]. rewrite E. reflexivity.
+  intros Hf. unfold is_derived. destruct (factor_at fb f) as [fd|] eqn:E; [|reflexivity].
+  destruct (f0_basic f0_unpack f fd Hf E) as [E1 _]. rewrite E1. reflexivity.
 Qed.
 
-Lemma f0_not_complex f : is_complex fb f = false.
+Lemma f0_not_complex f : In f (fl_act fb) -> is_complex fb f = false.
 Proof.
-  unfold is_complex, factor_at. destruct (nth_error (fl_design fb) f) as [fd|] eqn:E; [|reflexivity].
-  apply nth_error_In in E. apply (f0_basic f0_unpack) in E. apply E.
+  intros Hf. unfold is_complex. destruct (factor_at fb f) as [fd|] eqn:E; [|reflexivity].
+  apply (f0_basic f0_unpack f fd Hf E).
 Qed.
 
 (** a combination is excluded iff it contains a level named by an [Exclude] constraint *)
@@ -285,11 +313,12 @@ Proof.
     + cbn [fst snd]. rewrite Hl. apply Nat.eqb_refl.
 Qed.
 
-Lemma f0_inconsistent_eq di : is_excluded_or_inconsistent_combination fb di = is_excluded_combination fb di.
+Lemma f0_inconsistent_eq di : (forall p, In p di -> In (fst p) (fl_act fb)) ->
+  is_excluded_or_inconsistent_combination fb di = is_excluded_combination fb di.
 Proof.
-  unfold is_excluded_or_inconsistent_combination. destruct (is_excluded_combination fb di); [reflexivity|].
-  apply not_true_is_false. intros H. apply existsb_exists in H. destruct H as [f [_ H]].
-  rewrite f0_not_derived in H. discriminate.
+  intros Hact. unfold is_excluded_or_inconsistent_combination. destruct (is_excluded_combination fb di); [reflexivity|].
+  apply not_true_is_false. intros H. apply existsb_exists in H. destruct H as [f [Hf H]].
+  rewrite f0_not_derived in H by (apply Hact; exact Hf). discriminate.
 Qed.
 
 Definition f0_instances : list asg := map (fun ls => combine c ls) f0_cprod.
@@ -297,7 +326,8 @@ Definition f0_instances : list asg := map (fun ls => combine c ls) f0_cprod.
 Lemma f0_crossing_instances : crossing_instances fb c = f0_instances.
 Proof.
   unfold crossing_instances, f0_instances, f0_cprod, allowed_combos, instances_of.
-  rewrite filter_map_comm. f_equal. apply filter_ext. intros ls. rewrite f0_inconsistent_eq. reflexivity.
+  rewrite filter_map_comm. f_equal. apply filter_ext. intros ls. rewrite f0_inconsistent_eq; [reflexivity|].
+  intros p Hp. apply f0_cact_main. eapply in_combine_fst. exact Hp.
 Qed.
 
 Lemma f0_instances_length : length f0_instances = f0_q.
@@ -382,30 +412,36 @@ Lemma f0_no_crossings : no_crossings fb = false.
 Proof. unfold no_crossings. rewrite (f0_crossings f0_unpack). reflexivity. Qed.
 
 Lemma f0_cnc : crossed_noncomplex fb c = c.
-Proof. unfold crossed_noncomplex. apply filter_all. intros f _. rewrite f0_not_complex. reflexivity. Qed.
+Proof. unfold crossed_noncomplex. apply filter_all. intros f Hf. rewrite f0_not_complex by (apply f0_cact_main; exact Hf). reflexivity. Qed.
 
 Lemma f0_cnd : crossed_noncomplex_derived fb c = [].
-Proof. unfold crossed_noncomplex_derived. apply filter_none. intros f _. apply f0_not_derived. Qed.
+Proof.
+  unfold crossed_noncomplex_derived. apply filter_none. intros f Hf. apply f0_not_derived. apply f0_cact_main.
+  rewrite f0_cnc in Hf. exact Hf.
+Qed.
 
 Lemma f0_crossed_complex : crossed_complex fb c = [].
 Proof.
   unfold crossed_complex. rewrite (filter_none (is_complex fb) c); [reflexivity|].
-  intros f _. apply f0_not_complex.
+  intros f Hf. apply f0_not_complex. apply f0_cact_main. exact Hf.
 Qed.
 
 Lemma f0_source_factors : source_factors fb c = [].
 Proof. unfold source_factors. rewrite f0_cnd. reflexivity. Qed.
 
 (** the uncrossed factors: all independent *)
-Definition f0_ubi : list nat := filter (fun f => negb (memb f c)) (seq 0 n).
+Definition f0_ubi : list nat := filter (fun f => negb (memb f (the_crossing fb))) (fl_act fb).
+
+Lemma f0_ubi_act f : In f f0_ubi -> In f (fl_act fb).
+Proof. unfold f0_ubi. intros H. apply filter_In in H. apply H. Qed.
 
 Lemma f0_uncrossed_and_complex : uncrossed_and_complex fb c = f0_ubi.
-Proof. unfold uncrossed_and_complex, f0_ubi. rewrite f0_cnc, (f0_act f0_unpack). reflexivity. Qed.
+Proof. unfold uncrossed_and_complex, f0_ubi. rewrite f0_cnc. reflexivity. Qed.
 
 Lemma f0_uncrossed_basic : uncrossed_basic fb c = f0_ubi.
 Proof.
   unfold uncrossed_basic. rewrite f0_uncrossed_and_complex. apply filter_all.
-  intros f _. rewrite f0_not_derived. reflexivity.
+  intros f Hf. rewrite f0_not_derived by (apply f0_ubi_act; exact Hf). reflexivity.
 Qed.
 
 Lemma f0_ubs : uncrossed_basic_source fb c = [].
@@ -421,11 +457,12 @@ Qed.
 
 Lemma f0_ucd : uncrossed_derived_and_complex_derived fb c = [].
 Proof.
-  unfold uncrossed_derived_and_complex_derived. apply filter_none. intros f _. apply f0_not_derived.
+  unfold uncrossed_derived_and_complex_derived. apply filter_none. intros f Hf. apply f0_not_derived.
+  rewrite f0_uncrossed_and_complex in Hf. apply f0_ubi_act. exact Hf.
 Qed.
 
 Lemma f0_derived_factors : derived_factors fb = [].
-Proof. unfold derived_factors. apply filter_none. intros f _. apply f0_not_derived. Qed.
+Proof. unfold derived_factors. apply filter_none. intros f Hf. apply f0_not_derived. exact Hf. Qed.
 
 Lemma f0_block_weight_of ci : In ci (fl_crossings fb) -> block_crossing_weight fb ci = ROk (Z.of_nat (cw_of fb ci)).
 Proof.
